@@ -2,6 +2,8 @@ package actor
 
 import (
 	"fmt"
+	"runtime/debug"
+	"strings"
 	"sync"
 	"testing"
 	"time"
@@ -120,6 +122,25 @@ func judgeBotCall(st handState, gi int, cl call) (string, string) {
 	return "", ""
 }
 
+// feed shows a table to a runner through its adapter; a panic inside the runner is
+// returned (with its stack) instead of killing the process.
+func feed(f func()) (pan string) {
+	defer func() {
+		if r := recover(); r != nil {
+			st := strings.Split(string(debug.Stack()), "\n")
+			keep := []string{}
+			for _, l := range st {
+				if strings.Contains(l, "pokertable/actor") {
+					keep = append(keep, strings.TrimSpace(l))
+				}
+			}
+			pan = fmt.Sprintf("%v [%s]", r, strings.Join(keep, " <- "))
+		}
+	}()
+	f()
+	return ""
+}
+
 func c18Body(c *run.Ctx) {
 	K := run.Scale(6, 20)
 	nontrivial := false
@@ -176,7 +197,9 @@ func c18Body(c *run.Ctx) {
 			for k := 0; k < reps; k++ {
 				ad, a := newBot(id)
 				view := cloneT(st.Table)
-				ad.UpdateTableState(view)
+				if pan := feed(func() { ad.UpdateTableState(view) }); pan != "" {
+					c.Failf("C18.bot-panicked", "%s: bot %s (game index %d, allowed %v, stack %d of %d, wager %d, current wager %d, previous raise %d) panicked instead of moving: %s", st.Desc, id, gi, p.AllowedActions, p.StackSize, p.InitialStackSize, p.Wager, gs.Status.CurrentWager, gs.Status.PreviousRaiseSize, pan)
+				}
 				calls := ad.Calls()
 				if !asked {
 					if len(calls) != 0 {
@@ -198,10 +221,14 @@ func c18Body(c *run.Ctx) {
 				labels["chose_"+cl.Kind] = true
 				// stale views: the same snapshot again, and an older one of the same hand
 				if k == 0 {
-					ad.UpdateTableState(cloneT(st.Table))
+					if pan := feed(func() { ad.UpdateTableState(cloneT(st.Table)) }); pan != "" {
+						c.Failf("C18.bot-panicked", "%s: bot %s panicked on a repeated snapshot: %s", st.Desc, id, pan)
+					}
 					older := cloneT(st.Table)
 					older.State.GameState.UpdatedAt--
-					ad.UpdateTableState(older)
+					if pan := feed(func() { ad.UpdateTableState(older) }); pan != "" {
+						c.Failf("C18.bot-panicked", "%s: bot %s panicked on an older snapshot: %s", st.Desc, id, pan)
+					}
 					if n := len(ad.Calls()); n != 1 {
 						c.Failf("C18.acted-on-stale-view", "%s: bot %s acted again on a stale view (%d calls)", st.Desc, id, n)
 					}
@@ -299,6 +326,7 @@ func runBotTable(seed uint64) botTableResult {
 	var watchers []*watchAdapter
 	var actors []pactor.Actor
 	settled, opened := 0, 0
+	panicked := ""
 	done := make(chan string, 4)
 	maxHands := 1 + r.Intn(8)
 	finished := false
@@ -313,7 +341,18 @@ func runBotTable(seed uint64) botTableResult {
 		as := append([]pactor.Actor(nil), actors...)
 		mu.Unlock()
 		for _, a := range as {
-			a.GetTable().UpdateTableState(t)
+			a := a
+			if pan := feed(func() { a.GetTable().UpdateTableState(t) }); pan != "" {
+				mu.Lock()
+				if panicked == "" {
+					panicked = pan
+				}
+				mu.Unlock()
+				select {
+				case done <- "panic":
+				default:
+				}
+			}
 		}
 	})
 	te.OnTableStateUpdated(func(name string, t *pokertable.Table) {
@@ -426,6 +465,11 @@ func runBotTable(seed uint64) botTableResult {
 		}
 		w.mu.Unlock()
 	}
+	mu.Lock()
+	if panicked != "" {
+		res.sig, res.msg = "C18.bot-panicked", fmt.Sprintf("a bot panicked instead of moving: %s (table %s blinds %+v)", panicked, res.desc, setting.Blind)
+	}
+	mu.Unlock()
 	if why == "timeout" && res.sig == "" {
 		st := te.GetTable().State
 		ev := ""
